@@ -1603,6 +1603,14 @@ def _num_method(ev, x: Num, name, args, kwargs, fr, node):
     if name == "persist":
         return x.like(x.expr, unit=x.unit)
     if name == "rechunk":
+        # Dask's automatic chunk size is computed by dividing by the array's extents: rechunk(..., "auto", ...) on an array with a
+        # zero extent raises ZeroDivisionError (fact about the installed dask.array, confirmed by dask_auto_rechunk_of_empty_raises())
+        ch = args[0] if args else kwargs.get("chunks")
+        autos = [c for c in (ch.items if isinstance(ch, (TupleV, ListV)) else [ch]) if isinstance(c, StrV) and c.s == "auto"]
+        if autos and x.shape and any(sp.sympify(d_) == 0 for d_ in x.shape) and dask_auto_rechunk_of_empty_raises():
+            from .symeval import Raised
+            raise Raised("ZeroDivisionError", node, "float division by zero (dask auto-chunking of an empty array)",
+                         origin=(fr.fi.qualname if fr is not None and getattr(fr, "fi", None) is not None else None))
         return x.like(x.expr, unit=x.unit, backend="dask")
     if name == "reshape":
         shp = args[0] if len(args) == 1 and isinstance(args[0], (TupleV, ListV)) else TupleV(args)
@@ -2158,6 +2166,24 @@ def h_sorted(ev, args, kwargs, fr, node):
         keyed.append((_sort_key(ev, kv, node, fr), it))
     idx = sorted(range(len(keyed)), key=lambda i: keyed[i][0], reverse=bool(isinstance(rev, BoolV) and rev.b))
     return ListV([keyed[i][1] for i in idx])
+
+
+_DASK_EMPTY_AUTO = []
+
+
+def dask_auto_rechunk_of_empty_raises():
+    """Introspection of the installed third-party library (never of pulsarbat): does dask.array refuse to auto-chunk an empty array?"""
+    if not _DASK_EMPTY_AUTO:
+        try:
+            import dask.array as da
+            try:
+                da.zeros((0, 2), chunks=(-1, -1)).rechunk((-1, "auto"))
+                _DASK_EMPTY_AUTO.append(False)
+            except ZeroDivisionError:
+                _DASK_EMPTY_AUTO.append(True)
+        except Exception:
+            _DASK_EMPTY_AUTO.append(False)
+    return _DASK_EMPTY_AUTO[0]
 
 
 def h_finfo(ev, args, kwargs, fr, node):
